@@ -41,7 +41,7 @@ def run(ctx):
     rng = ctx.rng
 
     for name, case in ctx.corpus():
-        c01.replay_case(ctx, case, 'corpus:' + name)
+        replay(ctx, case, 'corpus:' + name)
 
     # ---- padding table: 17 codes x offsets 0..63, exhaustive in both tiers
     from txdbus import marshal as m
@@ -211,7 +211,7 @@ def decode_key(u, enc):
     return 'decode-value'
 
 
-def replay(ctx, data):
+def replay(ctx, data, stream='replay'):
     c01.register()
     inp = data.get('input', data)
     if 'data' in inp:
@@ -219,7 +219,7 @@ def replay(ctx, data):
         fds = vc.from_line(inp.get('fds', 'L 0'))
         raw = bytes.fromhex(inp['data'])
         tys = gv.parse_sig(sig)
-        ctx.case('replay', sample=inp)
+        ctx.case(stream, sample=inp)
         u = c01.impl_unmarshal(sig, raw, off, le, fds)
         try:
             rsv, rn = ref.decode(tys, raw, off, le)
@@ -237,7 +237,7 @@ def replay(ctx, data):
     if 'code' in inp:
         from txdbus import marshal as m
         code, off = inp['code'], inp['off']
-        ctx.case('replay', sample=inp)
+        ctx.case(stream, sample=inp)
         try:
             p = m.pad[code](off)
             res = 'ok %d' % len(p)
@@ -249,13 +249,13 @@ def replay(ctx, data):
                           observed=res, expected='ok %r' % (want,))
         return
     if 'line' in inp:
-        c01.replay_case(ctx, data, 'replay')
+        c01.replay_case(ctx, data, stream)
         return
     # encode direction: {'sig','values','off','le'}
     sig, off, le = inp['sig'], inp['off'], inp['le']
     pvs = vc.from_line(inp['values'])
     tys = gv.parse_sig(sig)
-    ctx.case('replay', sample=inp)
+    ctx.case(stream, sample=inp)
     r = c01.impl_marshal(sig, pvs, off, le, [])
     svs = to_spec(tys, pvs)
     want = ref.encode(tys, svs, off, le)
